@@ -65,7 +65,11 @@ func RunTLC(o TLCOpts) (TLCResult, error) {
 	if err != nil {
 		return res, err
 	}
-	defer os.RemoveAll(scratch)
+	if keep := os.Getenv("VERIF_KEEP_TLC"); keep != "" { // debugging aid: keep the run directories under $VERIF_KEEP_TLC
+		defer func() { exec.Command("cp", "-r", scratch, keep+"/").Run(); os.RemoveAll(scratch) }()
+	} else {
+		defer os.RemoveAll(scratch)
+	}
 	specDir := filepath.Join(Root(), "spec")
 	ents, err := os.ReadDir(specDir)
 	if err != nil {
@@ -337,6 +341,11 @@ func judgeOne(module string, events [][]byte, extra map[string][]byte, offset in
 		case "REJECT":
 			jr.Rejects = append(jr.Rejects, Reject{Case: v.Case, At: v.At + offset, Event: v.Event, Why: string(v.Why), KF: v.KF})
 		case "END":
+			if jr.Ended {
+				// every judge is a deterministic walk of the log: two END verdicts mean the trace specification
+				// branched (two enabled actions for one event) and verdicts would be counted twice
+				return jr, fmt.Errorf("judge %s: more than one END verdict - the trace specification is not deterministic on this log", module)
+			}
 			jr.Ended = true
 			jr.EndAt = v.At
 			jr.Accepted = v.Accepted
